@@ -186,7 +186,9 @@ class ProgressivelyTerminalDecider(BaseDecider):
             if n in self.grammar.recursive_prods:
                 return target // (ctx.depth + 1)
             else:
-                return target - self.grammar.get_distance_to_terminal(n)
+                # never negative: with an unproductive symbol in the grammar the target falls back to an
+                # estimate that may be smaller than a production's distance
+                return max(target - self.grammar.get_distance_to_terminal(n), 0)
 
         production_weights = self.grammar.get_weights()
         # alternatives of a Union need not be grammar symbols (e.g. list[int]): they count as weight 1
